@@ -656,20 +656,22 @@ def _schedule_rewrites(
 
         if isinstance(before, ast.AST):
             before = core.get_charnos(before, source)
-        elif before is None and getattr(after, "lineno", 1) > len(core.splitlines(source)):
-            # The new code goes after the last line, where there is no line to find the
-            # position on, and no indentation to reuse.
-            before = core.Range(len(source), len(source))
+        elif before is None:
+            # New code is inserted as lines of its own, before the line that has its line
+            # number, or after the last line. The lines around it may be indented differently,
+            # so the indentation is written out rather than reused.
+            line_start_charnos = core._get_line_start_charnos(source)
+            lineno = getattr(after, "lineno", 1)
+            if lineno <= len(line_start_charnos):
+                start = line_start_charnos[lineno - 1]
+            else:
+                start = len(source)
+
+            before = core.Range(start, start)
             indent = " " * getattr(after, "col_offset", 0)
             after = textwrap.indent(core.unparse(after).rstrip() + "\n", indent)
-            if source and not source.endswith(("\n", "\r")):
+            if start == len(source) and source and not source.endswith(("\n", "\r")):
                 after = "\n" + after
-
-        elif before is None:
-            before = core.get_charnos(after, source)
-
-            # In order to not replace anything, we need to make sure the range is empty.
-            before = core.Range(before.start, before.start)
 
         if after is None:
             after = ""
